@@ -7,6 +7,8 @@ import (
 	"path/filepath"
 	"sort"
 	"strings"
+
+	"golang.org/x/tools/go/ssa"
 )
 
 var repoPkgs = map[string]string{
@@ -108,4 +110,70 @@ func firstLines(s string, n int) string {
 		ls = ls[:n]
 	}
 	return strings.Join(ls, "\n")
+}
+
+// cmdSweep: govc sweep [-t secs] <pkg> : zero-annotation safety sweep over every function of the package (development aid).
+func cmdSweep(args []string) {
+	fs := flag.NewFlagSet("sweep", flag.ExitOnError)
+	timeout := fs.Int("t", 5, "per-obligation timeout (s)")
+	fs.Parse(args)
+	pkg := fs.Arg(0)
+	if !strings.Contains(pkg, "/") {
+		pkg = "mvdan.cc/sh/v3/" + pkg
+	}
+	P, err := load(pkg)
+	if err != nil {
+		fmt.Fprintln(os.Stderr, err)
+		os.Exit(2)
+	}
+	CS, err := loadContracts(P.Dir, verifDir(), repoPkgs)
+	if err != nil {
+		fmt.Fprintln(os.Stderr, err)
+		os.Exit(2)
+	}
+	sp := P.Pkgs[pkg]
+	var fns []*ssa.Function
+	for f := range ssautilAllFunctions(P.Prog) {
+		p := f.Pkg
+		if p == nil && f.Parent() != nil {
+			p = f.Parent().Pkg
+		}
+		if p == sp && len(f.Blocks) > 0 && f.Synthetic == "" {
+			fns = append(fns, f)
+		}
+	}
+	sort.Slice(fns, func(i, j int) bool { return fns[i].String() < fns[j].String() })
+	var obls []*Obligation
+	perFn := map[string]int{}
+	for _, fn := range fns {
+		ct := CS.Funcs[funcKey(fn)]
+		r := encodeFunc(P, CS, fn, ct)
+		for _, o := range r.Obls {
+			if o.Expect == "" {
+				obls = append(obls, o)
+				perFn[r.Name]++
+			}
+		}
+	}
+	dir := scratchDir("sweep")
+	dischargeAll(obls, dir, *timeout, false, 16)
+	bad := 0
+	badFn := map[string]int{}
+	for _, o := range obls {
+		if !o.Discharged() {
+			bad++
+			badFn[o.Func]++
+			fmt.Printf("FAIL %-8s %s [%s] %s\n", o.Result.Verdict, o.Name, o.Pos, o.Descr)
+		}
+	}
+	clean := 0
+	var cleanList []string
+	for f, n := range perFn {
+		if badFn[f] == 0 {
+			clean++
+			cleanList = append(cleanList, fmt.Sprintf("%s(%d)", f, n))
+		}
+	}
+	sort.Strings(cleanList)
+	fmt.Printf("%d functions, %d obligations, %d failing; %d functions with obligations are clean:\n%s\n", len(fns), len(obls), bad, clean, strings.Join(cleanList, " "))
 }
